@@ -15,6 +15,7 @@ import (
 	"verifmc/env"
 
 	"github.com/gobwas/ws"
+	"github.com/gobwas/ws/wsutil"
 
 	"verifmc/explore"
 	"verifmc/hs"
@@ -291,7 +292,113 @@ func main() {
 				}
 			}
 		})
+		// Every byte the server sends behind the response head stays readable, once and in order,
+		// through the returned reader followed by the connection - for every way of dialing the
+		// package offers (Upgrade on a connection, Dial, the debugging dialer, the same debugging
+		// dialer used for a second connection before the first one's bytes have been read) and for
+		// tails shorter and much longer than the read buffer.
+		r.Part("E4-post-handshake-bytes-through-every-way-of-dialing", func(t *explore.T) {
+			resp := "HTTP/1.1 101 Switching Protocols\r\nUpgrade: websocket\r\nConnection: Upgrade\r\nSec-WebSocket-Accept: ACCEPT\r\n\r\n"
+			mkConn := func(tail []byte, chunk int) *lazyNet {
+				lc := &hs.LazyConn{Policy: env.FixedChunk(chunk)}
+				lc.Respond = func(req []byte) []byte {
+					return append([]byte(strings.ReplaceAll(resp, "ACCEPT", hs.Accept(hs.KeyOf(req)))), tail...)
+				}
+				return &lazyNet{LazyConn: lc}
+			}
+			mkTail := func(n int, base byte) []byte {
+				b := make([]byte, n)
+				for i := range b {
+					b[i] = base + byte(i%61)
+				}
+				return b
+			}
+			drain := func(c net.Conn, br *bufio.Reader) []byte {
+				var out []byte
+				buf := make([]byte, 100)
+				if br != nil {
+					for {
+						k, e := br.Read(buf)
+						out = append(out, buf[:k]...)
+						if e != nil {
+							break
+						}
+					}
+					return out // the reader was given the connection as its source
+				}
+				for {
+					k, e := c.Read(buf)
+					out = append(out, buf[:k]...)
+					if e != nil {
+						break
+					}
+				}
+				return out
+			}
+			for _, rb := range []int{0, 16, 64} {
+				B := rb
+				if B == 0 {
+					B = 4096
+				}
+				for _, n := range []int{0, 1, B - 1, B, B + 1, 3*B + 5} {
+					for _, chunk := range []int{0, 7} {
+						for _, way := range []string{"Dialer.Dial", "DebugDialer.Dial", "DebugDialer.Dial-twice"} {
+							rb, n, chunk, way := rb, n, chunk, way
+							t.Do(func() string {
+								return fmt.Sprintf("%s, read buffer %d, %d bytes behind the response head, transport chunk=%d", way, rb, n, chunk)
+							}, func() *explore.Fail {
+								tails := [][]byte{mkTail(n, 0x21), mkTail(n/2+3, 0xa1)}
+								conns := []*lazyNet{mkConn(tails[0], chunk), mkConn(tails[1], chunk)}
+								dialed := 0
+								d := ws.Dialer{ReadBufferSize: rb, NetDial: func(ctx context.Context, network, addr string) (net.Conn, error) {
+									dialed++
+									return conns[dialed-1], nil
+								}}
+								var c1, c2 net.Conn
+								var b1, b2 *bufio.Reader
+								var err error
+								switch way {
+								case "Dialer.Dial":
+									c1, b1, _, err = d.Dial(context.Background(), "ws://example.com/chat")
+								default:
+									dd := wsutil.DebugDialer{Dialer: d, OnRequest: func([]byte) {}, OnResponse: func([]byte) {}}
+									c1, b1, _, err = dd.Dial(context.Background(), "ws://example.com/chat")
+									if err == nil && way == "DebugDialer.Dial-twice" {
+										c2, b2, _, err = dd.Dial(context.Background(), "ws://example.com/chat")
+									}
+								}
+								if err != nil {
+									return explore.Failf("valid-response-refused:"+way, "%v", err)
+								}
+								if got := drain(c1, b1); !bytes.Equal(got, tails[0]) {
+									return explore.Failf("post-handshake-bytes-differ:"+way, "server sent %d bytes behind the head, reader+connection yield %d:\n got %x\nwant %x", n, len(got), got, tails[0])
+								}
+								if c2 != nil {
+									if got := drain(c2, b2); !bytes.Equal(got, tails[1]) {
+										return explore.Failf("post-handshake-bytes-differ:second-connection", "got %x\nwant %x", got, tails[1])
+									}
+								}
+								return nil
+							})
+						}
+					}
+				}
+			}
+			t.Outcome("readable-once-in-order")
+		})
 	})
 }
+
+// lazyNet gives hs.LazyConn the net.Conn methods Dial needs.
+type lazyNet struct {
+	*hs.LazyConn
+}
+
+func (l *lazyNet) Close() error                     { return nil }
+func (l *lazyNet) LocalAddr() net.Addr              { return &net.TCPAddr{} }
+func (l *lazyNet) RemoteAddr() net.Addr             { return &net.TCPAddr{} }
+func (l *lazyNet) SetDeadline(time.Time) error      { return nil }
+func (l *lazyNet) SetReadDeadline(time.Time) error  { return nil }
+func (l *lazyNet) SetWriteDeadline(time.Time) error { return nil }
 
 var _ = ws.StateClientSide
